@@ -603,7 +603,12 @@ impl Operator<'_> {
             self,
             SUPPORT_SEND_ZC,
             SendZc,
-            SendZc::new(
+            // not the zero-copy opcode itself: it posts a second completion
+            // under the same user_data (the buffer is free again), which was
+            // taken for the completion of the caller's next call, and the
+            // caller gets its buffer back at the first one. The kernels that
+            // know the zero-copy opcode accept an address on a plain send.
+            Send::new(
                 Fd(fd),
                 buf.cast::<u8>(),
                 len.try_into().expect("len overflow")
